@@ -25,6 +25,7 @@ package main
 import (
 	"go/token"
 	"go/types"
+	"strings"
 
 	"golang.org/x/tools/go/ssa"
 )
@@ -62,6 +63,17 @@ func sliceOwned(v ssa.Value, seen map[ssa.Value]bool, roots map[ssa.Value]bool) 
 	case *ssa.Call:
 		if b, ok := t.Call.Value.(*ssa.Builtin); ok && b.Name() == "append" {
 			return sliceOwned(t.Call.Args[0], seen, roots)
+		}
+		// the standard library's append-style helpers (utf8.AppendRune,
+		// binary.AppendUvarint, strconv.AppendInt, ...) return their first
+		// argument extended, exactly like append: ownership follows it
+		if f := t.Call.StaticCallee(); f != nil && f.Pkg != nil && len(t.Call.Args) > 0 && strings.HasPrefix(f.Name(), "Append") {
+			switch f.Pkg.Pkg.Path() {
+			case "unicode/utf8", "encoding/binary", "strconv":
+				if _, isSlice := t.Call.Args[0].Type().Underlying().(*types.Slice); isSlice {
+					return sliceOwned(t.Call.Args[0], seen, roots)
+				}
+			}
 		}
 		return false
 	case *ssa.ChangeType:
